@@ -10,6 +10,8 @@ REPLAY = os.path.join(VERIF, 'replay')
 # batteries per property: list of argv lists (cheap first)
 BATTERIES = {
     'C17': [['arena', '5']],
+    'C10': [['dwarf']],
+    'C11': [['offsets']],
     'C12': [['customs']],
     'C13': [['names']],
     'C14': [['config']],
@@ -61,6 +63,14 @@ def run_one(binary, argv, timeout=900):
     return p.returncode, out
 
 
+def open_keys():
+    try:
+        k = json.load(open(os.path.join(VERIF, 'known_findings.json')))
+        return set(key for f in k.get('findings', []) if f.get('status') == 'open' for key in f.get('keys', []))
+    except Exception:
+        return set()
+
+
 def find(prop, unit, oblig, info, repo, log, cache={}):
     """-> witness dict or None.  Results are cached per (repo, battery) within one check run."""
     key = (repo, 'bin')
@@ -82,8 +92,13 @@ def find(prop, unit, oblig, info, repo, log, cache={}):
             log('witness battery %s: rc=%s' % (' '.join(argv), rc))
         rc, out = cache[k]
         if rc == 1 and out and out.get('failures'):
-            f = out['failures'][0]
-            w = {'battery': argv, 'failing_input': f, 'n_failures_shown': len(out['failures'])}
+            # failures that are recorded open findings are not witnesses of anything new
+            ok = open_keys()
+            fresh = [f for f in out['failures'] if not (isinstance(f, dict) and f.get('finding_key') in ok)]
+            if not fresh:
+                continue
+            f = fresh[0]
+            w = {'battery': argv, 'failing_input': f, 'n_failures_shown': len(fresh)}
             if 'input_wasm_hex' in f:
                 w['replay_argv'] = ['wasm-roundtrip', f['input_wasm_hex']]
             else:
